@@ -88,23 +88,12 @@ def value_job(N):
     j.bounded_note = 'value obligations only, exhaustive over all NUL-terminated byte strings of at most %d bytes' % N
     return j
 
-def shape_job(a, b, sep='.'):
-    # longer literals of one fixed shape: a digits, the separator, b digits (every digit value symbolic)
-    N = a + b + 1
-    conds = ' && '.join(["s[%d] == '%s'" % (a, sep)] + ["s[%d] >= '0' && s[%d] <= '9'" % (k, k) for k in range(N) if k != a])
-    h = H_CONV.replace("char s[OSMT_N + 1]; mk_input(s);", "char s[OSMT_N + 1]; mk_input(s); __CPROVER_assume(%s);" % conds, 1)
-    j = job('stringToRational.shape_%d%s%d' % (a, 'dot' if sep == '.' else 'slash', b), 'opensmt::stringToRational', h, N, weight=30, checks=[])
-    j.defines = j.defines + ('OSMT_STATIC_MALLOC',)
-    j.bounded_note = 'value obligations only, exhaustive over all literals of the shape %s%s%s (%d digits, separator, %d digits)' % ('d' * a, sep, 'd' * b, a, b)
-    return j
-
 def jobs(tier, N=None):
-    if os.environ.get('C16_SHAPE'):
-        a, b = os.environ['C16_SHAPE'].split(','); return [shape_job(int(a), int(b))]
     N = N or (4 if tier == 'quick' else 5)
     return [job('isIntString', 'opensmt::isIntString', H_INT, N + 1), job('isRealString', 'opensmt::isRealString', H_REAL, N + 1),
             job('stringToRational', 'opensmt::stringToRational', H_CONV, N, weight=20),
-            # (single-class jobs with N+2 bytes -- stringToRational.decimal/.fraction -- ran out of the 12 GB memory limit at 6 bytes and are not registered)
+            # (longer literals were tried and are NOT registered: all strings of 6 bytes exhaust MiniSat's and cadical's memory; one fixed shape d.ddddd of 7 bytes, with a static conversion
+            #  buffer and shift-add value arithmetic, still does not finish in 30 min)
             Job('normalize.base', TU, 'opensmt::normalize', tier='R', header='contracts/C16/normalize.h', harness=H_BASE, enforce=False, pre_includes=('stubs/gmp_types.h',),
                 min_obligations=1, default_unwind=4, proves='normalize hands the literal to GMP with base 10')]
 
